@@ -57,6 +57,9 @@ CLAIMED = {
  'C06': dict(
     text='Partial claim (definitions followed by a failing expression statement in the same input), bounded symbolic model checking through the whole real pipeline: an input consists of concrete successful definitions (six families: a variable; a redefinition of an existing function; a derived unit; a new dimension with a unit; a variable shadowing an existing one; a struct) followed by an expression statement whose token kinds are symbolic (37-kind alphabet; every sequence up to the stated length, and templates around run-time failures — division by zero, factorial of a negative number — with symbolic operators). Whenever Context::interpret rejects the input — parse error, unknown name, type error or run-time error — every probe expression must give the same value or the same class of error as before the input, and re-submitting the successful definitions followed by the probes must behave exactly as in a twin session that never saw the failing input. Failing inputs that import modules (the defect named in the property text) are outside this kernel.',
     design_ref='DESIGN.md §0a C06', technique='symbolic execution of LLVM IR (whole interpreter pipeline) over symbolic token kinds + SMT (z3 QF_BV), twin-session differential, native replay'),
+ 'C07': dict(
+    text='Partial claim (definitions followed by one expression statement; submission as two inputs vs one joined input; a copy taken before), bounded symbolic model checking through the whole real pipeline: for six families of concrete definitions and an expression statement whose token kinds are symbolic (37-kind alphabet; every accepted sequence up to the stated length, plus templates with symbolic operators), session A receives definitions and expression as two inputs, session B as one joined input; whenever both inputs of A succeed, B must succeed with the same type and the bit-identical value, all probe expressions must agree between A and B afterwards, and a copy of A taken before the inputs must answer the probes exactly as an untouched session does. Replaying saved history, printed output and imports are outside this kernel.',
+    design_ref='DESIGN.md §0a C07', technique='symbolic execution of LLVM IR (whole interpreter pipeline) over symbolic token kinds + SMT (z3 QF_BV), two-session differential, native replay'),
  'C16': dict(
     text='Partial claim (two-parameter functions whose bodies are operator expressions), bounded symbolic model checking through the whole real pipeline: the body\'s token kinds are symbolic (37-kind expression alphabet; every sequence up to the stated length that the real parser accepts, and longer templates — sums, products, quotients, integer powers, comparisons, conditionals, parentheses — with symbolic operator positions); `fn g(a, b) = body` is interpreted without annotations in a session with two base dimensions; if the checker accepts it, the statement it echoes (the inferred signature spelled out, generic parameters with their Dim bounds) is interpreted as a re-declaration and must be accepted and echo the same signature, and each of five call sites (scalars, one unit, the same unit twice, two units, a square) must be accepted or rejected identically, with the same type and the bit-identical value, before and after. Structure is enumerated by the solver exploring the parser; nothing here is a floating-point claim.',
     design_ref='DESIGN.md §0a C16', technique='symbolic execution of LLVM IR (whole interpreter pipeline) over symbolic token kinds + SMT (z3 QF_BV), replay-mode path exploration, native replay'),
@@ -66,7 +69,6 @@ CLAIMED = {
 }
 
 NOT_APPLICABLE = {
- 'C07': 'ranges over sequences of texts and split points; nothing value-dependent for a solver to decide',
  'C13': 'finite alias x prefix table: exhaustive enumeration is the tool; a solver would need symbolic identifiers through IndexMap hashing or a hand model of PrefixParser::parse instead of the code',
  'C17': 'finite set of module orders with no symbolic value; exhaustive enumeration is the tool',
  'C19': 'date-time arithmetic lives in jiff (calendar and time-zone tables) behind VM opcodes that need a DateTime on the stack; no kernel was built, so nothing is claimed',
